@@ -205,7 +205,7 @@ func vExtend(a *array.Array32, nodeCnt int32) {
 // vLegacyArrays builds the three arrays of a pre-0.5.10 stream.
 // variant bit0: children as 16-bit bitmap elements (0.5.4+) instead of u32;
 // bit1: extended index bitmaps (0.5.9); bit2: steps on leaf-only nodes (0.5.0).
-// hi: upper halves of the u32 children elements (the loader must ignore them).
+// hi: upper halves of the u32 children elements (first-child ids, as the historical writers stored them).
 func vLegacyArrays(t *vLegacyTrie, variant int, hi []uint16, leafElts interface{}, enc encode.Encoder) (*array.Array32, *array.Array32, *array.Array32) {
 	var ch *array.Array32
 	if variant&1 == 0 {
@@ -306,7 +306,9 @@ func H_l2_legacy0509() {
 	t := vLegacyBuild(c.keys, variant&4 != 0)
 	hi := make([]uint16, len(t.childBM))
 	for i := range hi {
-		hi[i] = vU16("hi")
+		// what the historical writers stored there: the id of the node's first child
+		// (validated against every archived fixture).  The loader is free to use or ignore it.
+		hi[i] = uint16(t.childFirst[i])
 	}
 	elts := make([]uint16, len(t.leafKey))
 	for i, k := range t.leafKey {
